@@ -11,6 +11,7 @@ BIN = _m.BIN
 RUNMOD = _m.RUNMOD
 FEATURES = getattr(_m, "FEATURES", None)
 FNS = ['widening_mul', 'inv_ring', 'product', 'overflowing_mul', 'saturating_mul']
+NO_ADAPT = True       # the owning property's check widens its own search when its sources change
 BUDGET = 1500          # generated cases kept per run (the owning property runs them all)
 
 
